@@ -12,6 +12,8 @@ pub(crate) fn custom_tap_hold_release(
     a: &Allocations,
 ) -> &'static (dyn Fn(QueuedIter) -> (Option<WaitingAction>, bool) + Send + Sync) {
     let keys = a.sref_vec(Vec::from_iter(keys.iter().copied()));
+    #[cfg(kanata_verif)]
+    let a = &verif::RegisteringAlloc { inner: a, kind: 0, keys };
     a.sref(
         move |mut queued: QueuedIter| -> (Option<WaitingAction>, bool) {
             while let Some(q) = queued.next() {
@@ -38,6 +40,8 @@ pub(crate) fn custom_tap_hold_except(
     a: &Allocations,
 ) -> &'static (dyn Fn(QueuedIter) -> (Option<WaitingAction>, bool) + Send + Sync) {
     let keys = a.sref_vec(Vec::from_iter(keys.iter().copied()));
+    #[cfg(kanata_verif)]
+    let a = &verif::RegisteringAlloc { inner: a, kind: 1, keys };
     a.sref(
         move |mut queued: QueuedIter| -> (Option<WaitingAction>, bool) {
             for q in queued.by_ref() {
@@ -55,4 +59,34 @@ pub(crate) fn custom_tap_hold_except(
             (None, true)
         },
     )
+}
+
+/// Verification hook (off unless built with `--cfg kanata_verif`): records, for every closure
+/// built above, its address, which of the two closures it is and the keys it captured, so that an
+/// external harness can serialise `HoldTapConfig::Custom`.
+#[cfg(kanata_verif)]
+pub mod verif {
+    use super::*;
+
+    /// (closure data address, kind: 0 = release-keys / 1 = except-keys, captured keys)
+    pub static TAP_HOLD_CLOSURES: std::sync::Mutex<Vec<(usize, u8, Vec<u16>)>> =
+        std::sync::Mutex::new(Vec::new());
+
+    pub(super) struct RegisteringAlloc<'a> {
+        pub(super) inner: &'a Allocations,
+        pub(super) kind: u8,
+        pub(super) keys: &'static [OsCode],
+    }
+
+    impl RegisteringAlloc<'_> {
+        pub(super) fn sref<T>(&self, v: T) -> &'static T {
+            let r = self.inner.sref(v);
+            TAP_HOLD_CLOSURES.lock().unwrap().push((
+                r as *const T as *const () as usize,
+                self.kind,
+                self.keys.iter().copied().map(u16::from).collect(),
+            ));
+            r
+        }
+    }
 }
